@@ -200,6 +200,20 @@ static std::string runOp(Ctx& c, const std::vector<std::string>& a) {
     JsonVariant v = !fromDoc ? chainGet<0>(H(a[1]), path, 0) : firstKey ? chainGet<1>(d0[k0], path, 1) : chainGet<1>(d0[i0], path, 1);
     return bindRes(a[3], v);
   }
+  // dst[p1] = src[p2]: a proxy assigned from another proxy (Model/Chain.v proxy_assign)
+  if (op == "passign") {
+    JsonVariant dsth = H(a[1]), srch = H(a[3]);
+    bool dKey = a[2][0] == 'k', sKey = a[4][0] == 'k';
+    std::string dk = dKey ? unhex(a[2].substr(1)) : std::string(), sk = sKey ? unhex(a[4].substr(1)) : std::string();
+    size_t di = dKey ? 0 : std::stoul(a[2].substr(1)), si = sKey ? 0 : std::stoul(a[4].substr(1));
+    bool viaSet = (alias & 1) != 0;       // dst[p1].set(src[p2]) or dst[p1] = src[p2]
+    bool r = true;
+    if (dKey && sKey) { if (viaSet) r = dsth[dk].set(srch[sk]); else dsth[dk] = srch[sk]; }
+    else if (dKey && !sKey) { if (viaSet) r = dsth[dk].set(srch[si]); else dsth[dk] = srch[si]; }
+    else if (!dKey && sKey) { if (viaSet) r = dsth[di].set(srch[sk]); else dsth[di] = srch[sk]; }
+    else { if (viaSet) r = dsth[di].set(srch[si]); else dsth[di] = srch[si]; }
+    return r ? "true" : "false";
+  }
   if (op == "set") { bool r = target([&](auto& t) { return setScalar(c, t, a[2]); }); return r ? (linkOk(H(a[1]), a[2]) ? "true" : "true!LINK") : "false"; }
   // to<JsonArray>() on a value that already is an array empties it: the same as JsonArray::clear() (likewise for objects)
   if (op == "toarr") { if (!viaDoc && H(a[1]).is<JsonArray>() && (alias & 4)) { H(a[1]).as<JsonArray>().clear(); return "-"; }
